@@ -517,6 +517,13 @@ impl JoinPlanner {
             return ir;
         }
 
+        // The join graph is built from the leaves of the join tree and the tree is
+        // rebuilt from those leaves alone: an operator sitting between two joins or
+        // between a join and its scan would be dropped. Leave such plans as they are.
+        if !Self::join_tree_has_plain_leaves(&ir, false) {
+            return ir;
+        }
+
         // Build join graph
         let graph = JoinGraph::from_ir(&ir);
 
@@ -539,6 +546,27 @@ impl JoinPlanner {
 
         // Rebuild IR with optimal join order
         self.rebuild_ir_with_order(&ir, &graph, &optimal_jst)
+    }
+
+    /// True if, below the operators stacked on top of the join tree, every join input
+    /// is another join, a scan, or a chain of filters over a scan.
+    fn join_tree_has_plain_leaves(ir: &IRNode, below_join: bool) -> bool {
+        match ir {
+            IRNode::Join { left, right, .. } => {
+                Self::join_tree_has_plain_leaves(left, true)
+                    && Self::join_tree_has_plain_leaves(right, true)
+            }
+            IRNode::Scan { .. } => true,
+            IRNode::Filter { .. } if JoinGraph::is_filter_scan_chain(ir) => true,
+            _ if below_join => false,
+            IRNode::Map { input, .. }
+            | IRNode::Filter { input, .. }
+            | IRNode::Distinct { input }
+            | IRNode::Aggregate { input, .. }
+            | IRNode::Compute { input, .. }
+            | IRNode::FlatMap { input, .. } => Self::join_tree_has_plain_leaves(input, false),
+            _ => false,
+        }
     }
 
     /// Check if IR contains a Union node
